@@ -13,7 +13,7 @@ use trippy_core::{
 };
 
 /// Generate one round the way a strategy could have produced it.
-pub fn gen_round(r: &mut Prng, k: usize, first: u8, max_n: u8, rtt_class: u64, nat: bool) -> (Vec<ProbeStatus>, u8) {
+pub fn gen_round(r: &mut Prng, k: usize, first: u8, max_n: u8, rtt_class: u64, nat: bool, single_path: bool) -> (Vec<ProbeStatus>, u8) {
     let n = r.below(u64::from(max_n) + 1) as u8;
     let t0 = SystemTime::UNIX_EPOCH + Duration::from_secs(1_700_000_000) + Duration::from_millis(k as u64 * 1000);
     let mut probes = Vec::new();
@@ -42,7 +42,7 @@ pub fn gen_round(r: &mut Prng, k: usize, first: u8, max_n: u8, rtt_class: u64, n
                 3 => Duration::from_millis(r.range(0, 10_000)),
                 _ => Duration::from_nanos(r.range(0, 5_000_000_000)),
             };
-            let host = IpAddr::V4(Ipv4Addr::new(10, ttl, r.below(3) as u8, 1));
+            let host = IpAddr::V4(Ipv4Addr::new(10, ttl, if single_path { 0 } else { r.below(3) as u8 }, 1));
             let kind = match r.below(4) {
                 0 => IcmpPacketType::TimeExceeded(trippy_core::verif::IcmpPacketCode(0)),
                 1 => IcmpPacketType::EchoReply(trippy_core::verif::IcmpPacketCode(0)),
@@ -94,12 +94,15 @@ fn history(seed: u64, i: usize, tier: Tier) -> Outcome {
     let rounds = if long { 100_000 } else { r.range(1, tier.pick(50, 400)) as usize };
     let site = format!("samples{max_samples}/first{first}/rtt{rtt_class}");
     let replay = json!({"how": format!("vcheck C05 --seed {seed} --only {i}"), "scenario": i, "max_samples": max_samples, "first_ttl": first, "rounds": rounds});
-    let mut state = State::new(StateConfig { max_samples, max_flows: 1 });
+    // one history in three follows a single path with room for many flows: every round is then
+    // attributed to flow 1, whose hops must show the same statistics as the default flow
+    let single_path = i % 3 == 0;
+    let mut state = State::new(StateConfig { max_samples, max_flows: if single_path { 64 } else { 1 } });
     let mut reference = RefFlow::default();
     let check_every = if long { 9973 } else { 1 };
     let mut first_rounds = Vec::new();
     for k in 0..rounds {
-        let (probes, largest) = gen_round(&mut r, k, first, max_n, rtt_class, nat);
+        let (probes, largest) = gen_round(&mut r, k, first, max_n, rtt_class, nat, single_path);
         if first_rounds.len() < 2 {
             first_rounds.push(json!({"largest_ttl": largest, "probes": probes.iter().map(crate::e2e::status_name).collect::<Vec<_>>()}));
         }
@@ -120,6 +123,21 @@ fn history(seed: u64, i: usize, tier: Tier) -> Outcome {
                         return o;
                     }
                     o.hit("conservation_laws");
+                    if single_path && state.flows().len() == 1 && state.round_count(trippy_core::FlowId(1)) == k + 1 {
+                        o.hit("per_flow_state_equals_reaggregation");
+                        match guarded(|| compare_flow(&state, trippy_core::FlowId(1), &reference, max_samples)) {
+                            Ok(d) => {
+                                if let Some((f, d0)) = d.first() {
+                                    o.violate("per_flow_state_equals_reaggregation", format!("{f}"), format!("after round {k}: flow 1 (all rounds follow one path): {d0}"), replay.clone());
+                                    return o;
+                                }
+                            }
+                            Err(p) => {
+                                o.violate("getters_never_panic", format!("{site}|flow1|{}", p.site()), format!("after round {k}: panic at {}:{}: {}", p.file, p.line, p.message), replay.clone());
+                                return o;
+                            }
+                        }
+                    }
                 }
                 Err(p) => {
                     o.violate("getters_never_panic", format!("{site}|{}", p.site()), format!("after round {k}: panic at {}:{}: {}", p.file, p.line, p.message), replay.clone());
